@@ -3,9 +3,9 @@ import re
 from checks import valcomp
 from vlib.proto import unhex
 
-LEAN_TARGETS = ["LyModel.Props.C03", "LyModel.Props.C03Base", "LyModel.Props.C03Union", "LyModel.Props.C03Ident", "LyModel.Props.C03Pattern", "LyModel.Props.C03Dt", "LyModel.Props.C03Hex"]
+LEAN_TARGETS = ["LyModel.Props.C03", "LyModel.Props.C03Base", "LyModel.Props.C03Union", "LyModel.Props.C03Ident", "LyModel.Props.C03Pattern", "LyModel.Props.C03Dt", "LyModel.Props.C03Hex", "LyModel.Props.C03InstId", "LyModel.Props.C03Bin"]
 AUDIT = "Audit/C03.lean"
-GENERATED = ["ValBounds", "Consts", "ValExt", "ValHex"]
+GENERATED = ["ValBounds", "Consts", "ValExt", "ValHex", "ValBin"]
 ASSUMPTIONS = [
     "libc is modelled, not verified: strtoll/strtoull of glibc 2.36 in the C locale (leading isspace, one optional sign, 0x/0 prefixes for base 0/16, "
     "ERANGE above 2^63-1 / 2^63 / 2^64-1; no C23 0b prefix), isspace/isdigit of the C locale, printf %d / %0*d",
@@ -13,7 +13,8 @@ ASSUMPTIONS = [
     "value strings contain no NUL byte (they are C strings on every text route); whitespace around numbers is accepted as libyang documents",
     "the theorems are about the executable model lean/LyModel/Val/Model.lean; model = code is checked by correspondence on every run",
     "derived-type plug-ins of ietf-inet-types and of ietf-yang-types other than date-and-time and the hex-string family (hex-string, mac-address, phys-address, uuid), "
-    "binary, instance-identifier, leafref: laws on the implementation only",
+    "leafref, xpath1.0: laws on the implementation only; instance-identifier: data nodes with string-typed keys / leaf-lists, require-instance false; "
+    "binary: the LY_VALUE_CANON store path is not reachable through the harness",
     "date-and-time: TZ=UTC (the harness sets it); the typedef pattern and the Unicode 14 Nd table are constants of the model",
     "union members are the modelled types (integers, decimal64, boolean, enumeration, bits, string with length and patterns); identityref over generated module "
     "sets whose module names are distinct from every other module of the context; all identities enabled (no if-feature), all modules implemented",
@@ -22,17 +23,20 @@ ASSUMPTIONS = [
 ]
 TRUSTED = ["tools/extractors/val.py (bounds, LYB sizes, executed lyplg_type_check_hints table)",
            "tools/extractors/valx.py (shape of the union / identityref / string-pattern / date-and-time functions, repair switches)",
-           "tools/extractors/valhex.py (typedef patterns of the hex-string family, shape of the plug-in)", "harness/api_types.c"]
+           "tools/extractors/valhex.py (typedef patterns of the hex-string family, shape of the plug-in)",
+           "tools/extractors/valbin.py (base64 tables, shape of plugins_types/binary.c)",
+           "tools/checks/valinst.py + the schema serialisation check of harness/api_types.c (instance-identifier schemas)", "harness/api_types.c"]
 
 
 def classify(component, what, case):
     if component != "val" or not isinstance(case, dict):
         return None
-    from checks import valdt
-    if hasattr(valdt, "classify_dt"):
-        r = valdt.classify_dt(component, what, case)
-        if r:
-            return r
+    from checks import valdt, valbin
+    for hook in (getattr(valdt, "classify_dt", None), getattr(valbin, "classify_bin", None)):
+        if hook:
+            r = hook(component, what, case)
+            if r:
+                return r
     law = case.get("law")
     ty = case.get("type", "")
     head = ty.split(":")[0]
